@@ -677,9 +677,13 @@ impl<'a> BenchContext<'a> {
         };
 
         if !is_test {
-            self.samples
+            // NOTE: This is only an optimization. `max_time` may end sampling
+            // long before `sample_count` samples exist, so failing to reserve
+            // memory for all of them up front must not abort the run.
+            _ = self
+                .samples
                 .time_samples
-                .reserve(self.options.sample_count.unwrap_or(1) as usize);
+                .try_reserve(self.options.sample_count.unwrap_or(1) as usize);
         }
 
         let skip_ext_time = self.options.skip_ext_time.unwrap_or_default();
